@@ -290,6 +290,12 @@ fn run_redo() -> (Result<(), Error>, Option<StdinLogReader>) {
         if j < 0 || j > 1000 {
             return Err(anyhow!("invalid --jobs value: {}", j));
         }
+        // A redo process waits for its jobs with select(): every running job
+        // costs it two descriptors (the job's pipe and its stdout file), all of
+        // which must stay below FD_SETSIZE.  More slots than one process can
+        // serve would make a flat build fail although every script succeeds.
+        const MAX_JOBS_ONE_PROCESS_CAN_SERVE: i32 = 400;
+        let j = std::cmp::min(j, MAX_JOBS_ONE_PROCESS_CAN_SERVE);
         let mut server = JobServer::setup(j)?;
         assert!(ps.is_flushed());
         #[cfg(feature = "verif-hooks")]
